@@ -42,7 +42,7 @@ def ladder_cdc(k, kind: str, scale: float, R0: float) -> str:
         if kind == "RC" or (kind == "mixedQC" and i % 2 == 1) or (kind == "mixedCQ" and i % 2 == 0):
             s += f"(R{{R={R!r}}}C{{C={t / R!r}}})"
         else:
-            n = NS_RQ[i]
+            n = {"RQ(n=0.999)": 0.999, "RQ(n=0.995)": 0.995, "RQ(n=1)": 1.0}.get(kind, NS_RQ[i])   # exponents at / within 1e-2 of the upper limit
             s += f"(R{{R={R!r}}}Q{{Y={t ** n / R!r},n={n!r}}})"
     return s
 
@@ -118,8 +118,17 @@ def run_case(case: dict, st=None) -> Tuple[List[dict], str]:
         elif part == "lm":
             d, _ = spectrum(case, st, R0_factor=0.0)
             r = st["drt"](d, method="lm", model_order_method=case.get("order_method", "matrix_rank"), num_procs=1)
-            t1, g1, t2, g2 = r.get_drt_data()
-            t1, g1 = sorted_drt(t1, g1, np)
+            try:
+                # a result that cannot be read is not a recovered ladder: the accessors are part of the claim (boundary: a single pole)
+                t1, g1, t2, g2 = r.get_drt_data()
+                t1, g1 = sorted_drt(np.atleast_1d(t1) if np.ndim(t1) else t1, np.atleast_1d(g1) if np.ndim(g1) else g1, np)
+                len(t1), len(t2)
+                pk = r.get_peaks()
+                r.to_peaks_dataframe()
+                len(pk[0])
+            except Exception as ex:
+                viol(f"lm|result-accessor-raises|{type(ex).__name__}", f"the result of the Loewner method for a ladder of {k} cannot be read: {type(ex).__name__}: {str(ex)[:80]}")
+                return viols, "violation"
             if len(t2) > 0:
                 viol("lm|inductive-branch-reported", f"the Loewner method reports {len(t2)} inductive term(s) for a pure RC ladder")
             if len(t1) != k:
@@ -248,6 +257,9 @@ def cases(thorough: bool) -> List[dict]:
     for k, scale in itertools.product((1, 2, 3) if not thorough else (1, 2, 3, 4), scales):
         out.append({"part": "mrq-fit", "k": k, "scale": scale, "ppd": 10, "kind": "RQ", "exact_fit": True})
         out.append({"part": "mrq-fit", "k": k, "scale": scale, "ppd": 10, "kind": "RC", "exact_fit": True})   # (RC) elements: Gaussian branch
+        if k == 2:
+            for kind in ("RQ(n=0.999)", "RQ(n=0.995)", "RQ(n=1)"):   # (RQ) elements that are capacitors to within 1e-2: same branch
+                out.append({"part": "mrq-fit", "k": k, "scale": scale, "ppd": 10, "kind": kind, "exact_fit": True})
         if k >= 2:
             out.append({"part": "mrq-fit", "k": k, "scale": scale, "ppd": 10, "kind": "mixedQC", "exact_fit": True})   # (RQ) before (RC)
             out.append({"part": "mrq-fit", "k": k, "scale": scale, "ppd": 10, "kind": "mixedCQ", "exact_fit": True})
